@@ -515,3 +515,131 @@ def p2c(prog):
                                  "detail": None})
     inst.append(("P2c:evaluations", {"calls": n_eval}))
     return inst, findings
+
+
+# ---------------------------------------------------------------------------
+# P5: string words against the byte-string model (source evaluation)
+
+def p5(prog, tier="quick"):
+    """length, elem, relem, ?empty, ?find, ?starts, ?ends, add and value_str::cmp interpreted from their source on every byte string
+    over the alphabet {a, b, NUL, 0xff} up to a small length, with std::string modelled member by member (a `const char *` argument is
+    a C string and stops at its first NUL, as in the library).  The words touch their operands only through those members, so this
+    alphabet exercises every distinction they can make: equal/unequal bytes, the terminator value, a byte with the sign bit set,
+    empty operands, needles longer than haystacks."""
+    import itertools
+    from cxxobj import CxxEvaluator, StdStr, Obj, OutOfBounds
+    from absint import Thrown
+    inst, findings = [], []
+
+    def one(q):
+        fs = [f for f in prog.funcs.values() if f["q"] == q and f.get("body") is not None]
+        if len(fs) != 1:
+            raise Broken("anchor %s vanished" % q)
+        return fs[0]
+    cmp_enum = None
+    for e in prog.enums.values():
+        if e["q"] == "cmp_result":
+            cmp_enum = {c["n"]: ("enum", c["n"], c["v"]) for c in e["consts"]}
+    if cmp_enum is None:
+        raise Broken("enum cmp_result vanished")
+    hooks = {
+        "ctor:pred_result": lambda ev, o, a: a[0],
+        "zw_value::as<value_str>": lambda ev, o, a: a[0] if isinstance(a[0], Obj) and a[0]._cls == "value_str" else None,
+    }
+    ev = CxxEvaluator(hooks, {"dec_constant_dom": "dec"}, prog=prog)
+    alpha = [0x61, 0x62, 0x00, 0xff]
+    maxlen = 3 if tier == "thorough" else 2
+    strs = [b""]
+    for n in range(1, maxlen + 1):
+        strs += [bytes(t) for t in itertools.product(alpha, repeat=n)]
+
+    def vs(b, pos=0):
+        v = Obj("value_str")
+        v.m_str, v.m_pos = StdStr(b), pos
+        return v
+
+    def pr(r):
+        if isinstance(r, bool):
+            return "yes" if r else "no"
+        return r[1] if isinstance(r, tuple) else r
+
+    def show(b):
+        return '"' + "".join(chr(c) if 0x20 < c < 0x7f else "\\x%02x" % c for c in b) + '"'
+    seen = set()
+
+    def report(key, f, msg):
+        if key not in seen:
+            seen.add(key)
+            findings.append({"key": key, "where": "libzwerg/" + f["l"], "msg": msg, "detail": None})
+
+    def run(key, f, this, args, what):
+        try:
+            return True, ev.call(f, this, args)
+        except OutOfBounds as x:
+            report(key, f, "%s: %s (memory error)" % (what, x))
+        except Thrown as x:
+            report(key, f, "%s throws (%s)" % (what, x))
+        return False, None
+
+    def sval(v):
+        s_ = getattr(v, "m_str", None)
+        return s_.b if isinstance(s_, StdStr) else None
+
+    def cval(v):
+        c = getattr(v, "m_cst", None)
+        val = getattr(c, "m_value", None)
+        return getattr(val, "m_u", val)
+    f_len, f_add = one("op_length_str::operate"), one("op_add_str::operate")
+    f_elem, f_relem = one("op_elem_str::operate"), one("op_relem_str::operate")
+    n_elem, n_relem = one("(anonymous namespace)::str_elem_producer::next"), one("(anonymous namespace)::str_relem_producer::next")
+    f_empty, f_find = one("pred_empty_str::result"), one("pred_find_str::result")
+    f_starts, f_ends = one("pred_starts_str::result"), one("pred_ends_str::result")
+    f_cmp = one("value_str::cmp")
+    n = 0
+    for a in strs:
+        sa = show(a)
+        ok, r = run("P5:length", f_len, Obj("op"), [vs(a)], "`length` of %s" % sa)
+        n += 1
+        if ok and (cval(r) != len(a) or getattr(r, "m_pos", None) != 0):
+            report("P5:length", f_len, "`length` of %s yields %s; the string has %d bytes" % (sa, cval(r), len(a)))
+        ok, r = run("P5:?empty", f_empty, Obj("op"), [vs(a)], "`?empty` on %s" % sa)
+        if ok and pr(r) != ("yes" if not a else "no"):
+            report("P5:?empty", f_empty, "`?empty` on %s answers %s" % (sa, pr(r)))
+        for f_e, nx, nm, want in ((f_elem, n_elem, "elem", list(a)), (f_relem, n_relem, "relem", list(a)[::-1])):
+            ok, p = run("P5:" + nm, f_e, Obj("op"), [vs(a)], "`%s` on %s" % (nm, sa))
+            if not ok:
+                continue
+            outs = []
+            for _ in range(len(a) + 2):
+                ok, v = run("P5:" + nm, nx, p, [], "`%s` on %s" % (nm, sa))
+                n += 1
+                if not ok or v is None:
+                    break
+                outs.append(v)
+            if not ok:
+                continue
+            got = [sval(v) for v in outs]
+            if got != [bytes([c]) for c in want] or [getattr(v, "m_pos", None) for v in outs] != list(range(len(outs))):
+                report("P5:" + nm, nx, "`%s` on %s yields %s numbered %s; expected the bytes %s one by one, numbered from 0" % (
+                    nm, sa, [show(g) if g is not None else None for g in got], [getattr(v, "m_pos", None) for v in outs], [show(bytes([c])) for c in want]))
+    for a in strs:
+        for b in strs:
+            sa, sb = show(a), show(b)
+            n += 1
+            ok, r = run("P5:add", f_add, Obj("op"), [vs(a), vs(b)], "`add` of %s and %s" % (sa, sb))
+            if ok and (sval(r) != a + b or getattr(r, "m_pos", None) != 0):
+                report("P5:add", f_add, "`add` of %s and %s yields %s" % (sa, sb, show(sval(r)) if sval(r) is not None else None))
+            for key, f, model in (("P5:?find", f_find, b in a), ("P5:?starts", f_starts, a.startswith(b)), ("P5:?ends", f_ends, a.endswith(b))):
+                ok, r = run(key, f, Obj("op"), [vs(a), vs(b)], "`%s` on %s and %s" % (key[3:], sa, sb))
+                if ok and pr(r) != ("yes" if model else "no"):
+                    report(key, f, "`%s` with haystack %s and needle %s answers %s" % (key[3:], sa, sb, pr(r)))
+            ok, r = run("P5:cmp", f_cmp, vs(a), [vs(b)], "comparison of %s and %s" % (sa, sb))
+            if ok:
+                want = "less" if a < b else ("greater" if a > b else "equal")
+                if pr(r) != want:
+                    report("P5:cmp", f_cmp, "value_str::cmp answers `%s` for %s and %s: strings compare bytewise over their whole length (`%s` expected); "
+                                            "a value would not even equal its own copy when it contains a NUL" % (pr(r), sa, sb, want) if a == b else
+                           "value_str::cmp answers `%s` for %s and %s: strings compare bytewise over their whole length (`%s` expected)" % (pr(r), sa, sb, want))
+    for k in ("length", "?empty", "elem", "relem", "add", "?find", "?starts", "?ends", "cmp"):
+        inst.append(("P5:" + k, {"strings": len(strs), "evaluations": n}))
+    return inst, findings
